@@ -72,6 +72,44 @@ def entry_frame(ct: Container, cd: Codecs, rep, rule="entry-frame"):
                  construct="BTSDate struct format")
 
 
+def setter_delegation(ct: Container, rep, rule="setter-delegation"):
+    """'replacing a block without giving a comment keeps its previous comment' also holds for replacement through a convenience
+    setter only because the setter hands the whole job to replace_block (where the comment is carried over): on every path a
+    setter calls exactly one of self.replace_block(<value>) / self.add_block(<value>), and never remove_block itself."""
+    from ..facts import path_returns
+    from ..normalize2 import eval_order
+    mod = M.MOD(ct)
+    n = 0
+    for f in ct.setters():
+        ff = ct.facts(f.name, "setter")
+        fq = f"Tdf.{f.name}.setter"
+        sn = ff.f.self_name or "self"
+        val = ff.f.params[0] if ff.f.params else None
+        n += 1
+        bad = False
+        for pe in path_returns(ff.f.node):
+            if pe.kind == "raise":
+                continue
+            calls = [x for e in pe.effects for x in eval_order(e) if isinstance(x, ast.Call) and isinstance(x.func, ast.Attribute) and isinstance(x.func.value, ast.Name)
+                     and x.func.value.id == sn and x.func.attr in ("replace_block", "add_block", "remove_block")]
+            names = [c.func.attr for c in calls]
+            if "remove_block" in names:
+                rep.fail(rule, mod, fq, calls[names.index("remove_block")], "the setter removes the present block itself instead of handing the replacement to replace_block: the previous comment is not carried over "
+                         "(and a refused new block leaves the file without the old one)", construct=f"{fq} removes directly")
+                bad = True
+            elif len(calls) != 1:
+                rep.fail(rule, mod, fq, pe.node or ff.f.node, f"a path of the setter makes {len(calls)} add/replace calls (expected exactly one)", construct=f"{fq} call count")
+                bad = True
+            else:
+                a0 = calls[0].args[0] if calls[0].args else (calls[0].keywords[0].value if calls[0].keywords else None)
+                if val is None or a0 is None or norm(a0) != val:
+                    rep.fail(rule, mod, fq, calls[0], f"`{norm(calls[0])}` does not store the assigned value `{val}`", construct=f"{fq} value")
+                    bad = True
+        if not bad:
+            rep.ok(rule, f"{fq}: every path hands `{val}` to exactly one of replace_block / add_block", nontrivial=True)
+    rep.floor(rule, n, 5)
+
+
 def comment_carry(ct: Container, rep, rule="comment-carry"):
     """Path summaries of replace_block: the comment handed to add_block is the caller's when one was given (`comment is not
     None`) and otherwise the comment of the entry being replaced (the first entry of the new block's type), and that entry is
@@ -230,6 +268,7 @@ def run(prog, rep):
     rep.attempt(entry_frame, ct, cd, rep)
     rep.attempt(M.tail_move, ct, rep, rule="tail-move-order", shift_rule="shift-consistency")
     rep.attempt(comment_carry, ct, rep)
+    rep.attempt(setter_delegation, ct, rep)
     rep.attempt(dispatch_exhaustive, ct, rep)
     rep.attempt(M.get_block_reads_disk, ct, rep)
     # a block added after a removal must not land on another block's bytes: the free slots point at end of data
@@ -242,4 +281,8 @@ def run(prog, rep):
     # comments / labels reach the file unaltered only if the string writer refuses what does not fit instead of cutting it
     from .c13 import string_write_rules
     rep.attempt(string_write_rules, prog, rep)
+    # .. and re-parse to the same text / dates: the string and date codecs the entry codec treats as atoms are themselves inverse
+    from .. import primitives as PR
+    rep.attempt(PR.string_codec, prog, rep)
+    rep.attempt(PR.date_codec, prog, rep)
     rep.not_decided += ["byte equality of moved payloads under concrete histories", "datetime <-> 32-bit timestamp corner cases (DST folds, 2038)"]
